@@ -97,6 +97,7 @@ func (ds *dataStore) AppendRecord(rec *Record) (pos Position, err error) {
 }
 
 func (ds *dataStore) flush(chunk int, force bool) error {
+	verifPoint("flush:enter")
 	if ds.wbufSize == 0 {
 		return nil
 	}
@@ -132,6 +133,7 @@ func (ds *dataStore) flush(chunk int, force bool) error {
 			filessize, w.offset, ds.genPath(chunk), &ds.chunks[chunk])
 	}
 	nflushed, err := ds.chunks[chunk].flush(w, false)
+	verifPoint("flush:done")
 	ds.Lock()
 	ds.wbufSize -= nflushed
 	ds.Unlock()
